@@ -320,7 +320,7 @@ def _attempt(raw, rq, peer, mode, table, textual):
 # ------------------------------------------------------------------------------ stage 4: TLC judges
 
 def validate(traces):
-    """-> [(attempt index, clause, class, which)] per trace"""
+    """-> [(attempt index, clause, class, which model run, exact bytes?)] per trace"""
     if not traces:
         return []
     doc = env_doc()
@@ -328,9 +328,9 @@ def validate(traces):
     r = tlc.run("BodyFraming_Trace", TRACE_CFG, workers=1, files={"traces.json": json.dumps(doc)},
                 env={"TRACE_FILE": "traces.json"}, timeout=7200)
     vs = [ln[1:-1].split("|")[1:] for ln in r.out.splitlines() if ln.startswith('"VERDICT|') and ln.endswith('"')]
-    if len(vs) != len(traces) or [v[0] for v in vs] != [str(i) for i in range(1, len(traces) + 1)] or any(len(v) != 5 for v in vs):
+    if len(vs) != len(traces) or [v[0] for v in vs] != [str(i) for i in range(1, len(traces) + 1)] or any(len(v) != 6 for v in vs):
         raise tlc.MachineryError(f"BodyFraming_Trace produced {len(vs)} verdicts for {len(traces)} traces\n{r.out[-2500:]}")
-    return [(int(v[1]), v[2], v[3], v[4]) for v in vs]
+    return [(int(v[1]), v[2], v[3], v[4], v[5]) for v in vs]
 
 
 def proj(att, mode):
@@ -374,9 +374,9 @@ def assess(items, origin):
     verdicts = validate(traces)
     findings = known.load("C11")
     res = {"n": len(items), "bad": [], "drift": [], "known": [], "tally": {}, "nontrivial": set(), "samples": [], "attempts": 0}
-    for (sc, mode, variant, total, expected), t, (at, clause, cls, which) in zip(items, traces, verdicts):
+    for (sc, mode, variant, total, expected), t, (at, clause, cls, which, exact) in zip(items, traces, verdicts):
         res["attempts"] += len(t["atts"])
-        for k in (f"kind:{sc['kind']}", f"variant:{variant}", f"mode:{mode}", f"client:{sc['client']}", f"which:{which}",
+        for k in (f"kind:{sc['kind']}", f"variant:{variant}", f"mode:{mode}", f"client:{sc['client']}", f"which:{which}", f"bytes:{exact}",
                   f"outcome:{t['outcome'].split(':')[0]}", f"clause:{clause}", f"hist:{'>'.join(sc['hist'])}",
                   f"first:{sc['caller']}/{'chunked' if sc['chunked'] else 'plain'}/{'body' if sc['kind'] != 'none' else 'nobody'}"):
             res["tally"][k] = res["tally"].get(k, 0) + 1
@@ -400,6 +400,9 @@ def assess(items, origin):
         elif which == "neither" and len(res["drift"]) < 3:
             res["drift"].append("the run satisfies the Rules but is no run of the model (with or without the recorded deviations): "
                                 + describe(t, max(len(t["atts"]), 1), "drift"))
+        elif exact == "inexact" and len(res["drift"]) < 3:
+            res["drift"].append("every attempt is framed correctly but the bytes are not the model's canonical serialisation: "
+                                + describe(t, 1, "inexact"))
         if len(res["samples"]) < 2 and len(sc["hist"]) > 1 and sc["kind"] not in ("none", "bytes") and mode == "sym":
             res["samples"].append({"scenario": _short(sc), "variant": variant, "outcome": t["outcome"], "verdict": clause, "model_run": which,
                                    "attempts": [text(a["raw"])[:160] for a in t["atts"]]})
